@@ -291,7 +291,7 @@ class ScheduleError(RuntimeError):
 class Controller:
     """Releases the steps of the reads in exactly the given order."""
 
-    def __init__(self, sched, timeout=20.0):
+    def __init__(self, sched, timeout=6.0):
         self.sched, self.i, self.cv, self.failed, self.timeout = list(sched), 0, threading.Condition(), None, timeout
         self.log = []
 
@@ -511,7 +511,9 @@ def validate(module, events, chk, batch=400, jobs=6, timeout=600, name=None, env
         r = tlc.run(module, cfg or module + ".cfg", workers=1, env=e, timeout=timeout, heap="3g")
         rej, summary = [], None
         if os.path.exists(vf):
-            for line in open(vf):
+            with open(vf) as f:
+                lines = f.read().splitlines()
+            for line in lines:
                 line = line.strip()
                 if not line:
                     continue
